@@ -1,5 +1,6 @@
 import MimeModel.Model.Detect
 import MimeModel.Model.MediaType
+import MimeModel.Model.MediaTypeU
 import MimeModel.Model.Reader
 import MimeModel.Gen.Tree
 import MimeModel.Spec.All
@@ -732,6 +733,8 @@ def handle (line : String) : String :=
         | some path, [bits, normh] =>
           match path.getLast?, (if normh == "-" then some [] else unhex normh) with
           | some node, some norm =>
+            -- the model of ParseMediaType on arbitrary bytes against the real package's answer
+            if (unhex _sh).map MTU.typeOfU != some norm then s!"DIFF parse-unicode model={bhex (((unhex _sh).map MTU.typeOfU).getD [])}" else
             let wantIs := norm == node.mime || node.aliases.contains norm
             let wantEq := norm == MT.typeOf name
             let want := (if wantIs then "T" else "F") ++ (if wantEq then "T" else "F")
@@ -744,7 +747,12 @@ def handle (line : String) : String :=
       | none => "BAD args"
     | ["eqanyx", _sh, _th] =>
       match goRes.splitOn " " with
-      | [bit, na, nb] => if (bit == "T") == (na == nb) then "OK" else "SPEC C15:equalsany-not-by-normalised-type"
+      | [bit, na, nb] =>
+        let ma := ((unhex _sh).map MTU.typeOfU).getD []
+        let mb := ((unhex _th).map MTU.typeOfU).getD []
+        let h (b : Bytes) : String := if b.isEmpty then "-" else bhex b
+        if h ma != na || h mb != nb then s!"DIFF parse-unicode model={h ma},{h mb}"
+        else if (bit == "T") == (na == nb) then "OK" else "SPEC C15:equalsany-not-by-normalised-type"
       | _ => "BAD eqanyx"
     | ["bigslice", _lim, _extra, _hx] =>
       match goRes.splitOn " " with
@@ -1104,16 +1112,16 @@ def handle (line : String) : String :=
       match unhex nh, unhex sh with
       | some name, some sv =>
         if goRes == "NOLOOKUP" then "SPEC C15:registered-name-does-not-resolve" else
-        if !isAsciiBytes sv then "SKIP non-ascii" else
         match Gen.builtin.lookup (fun i => i.mime == name || i.aliases.contains name) with
         | none => "DIFF is model=NOLOOKUP"
         | some path =>
           match path.getLast? with
           | none => "BAD path"
           | some node =>
-            let ts := MT.typeOf sv
-            let isM := ts == MT.typeOf node.mime || node.aliases.contains ts
-            let eqM := ts == MT.typeOf name
+            -- `MTU.typeOfU`: mime.ParseMediaType on arbitrary bytes (Unicode white space and case, invalid UTF-8)
+            let ts := MTU.typeOfU sv
+            let isM := ts == MTU.typeOfU node.mime || node.aliases.contains ts
+            let eqM := ts == MTU.typeOfU name
             let m := (if isM then "T" else "F") ++ (if eqM then "T" else "F")
             let g := (goRes.splitOn " ").headD ""
             let d := if m == g then "" else s!"DIFF is model={m}"
@@ -1126,8 +1134,7 @@ def handle (line : String) : String :=
     | ["eqany", sh, th] =>
       match unhex sh, unhex th with
       | some a, some b =>
-        if !isAsciiBytes a || !isAsciiBytes b then "SKIP non-ascii" else
-        let m := if MT.typeOf a == MT.typeOf b then "T" else "F"
+        let m := if MTU.typeOfU a == MTU.typeOfU b then "T" else "F"
         let d := if m == goRes then "" else s!"DIFF eqany model={m}"
         let sp := if m != goRes then "SPEC C15:equalsany-not-by-normalised-type" else ""
         let all := [d, sp].filter (· != "")
